@@ -50,6 +50,53 @@ func reader(toks []xml.Token) xml.TokenReader {
 	return &sliceReader{toks: toks}
 }
 
+// scratchReader hands out tokens the way (*xml.Decoder).Token does: character
+// data and attribute slices live in the reader's own scratch memory and are
+// only valid until the next call, which overwrites them.
+type scratchReader struct {
+	toks  []xml.Token
+	i     int
+	data  []byte
+	attrs []xml.Attr
+}
+
+func (s *scratchReader) Token() (xml.Token, error) {
+	// what was handed out last time is gone now
+	for i := range s.data {
+		s.data[i] = '#'
+	}
+	for i := range s.attrs {
+		s.attrs[i] = xml.Attr{Name: xml.Name{Local: "stale"}, Value: "stale"}
+	}
+	if s.i >= len(s.toks) {
+		return nil, io.EOF
+	}
+	t := s.toks[s.i]
+	s.i++
+	switch v := t.(type) {
+	case xml.CharData:
+		s.data = append(s.data[:0], v...)
+		return xml.CharData(s.data), nil
+	case xml.StartElement:
+		s.attrs = append(s.attrs[:0], v.Attr...)
+		v.Attr = s.attrs
+		return v, nil
+	}
+	return t, nil
+}
+
+// readerForm: "" the tokens themselves, "scratch" a reader whose tokens are
+// only valid until the next call.
+func readerForm(toks []xml.Token, form string) xml.TokenReader {
+	if len(toks) == 0 {
+		return nil
+	}
+	if form == "scratch" {
+		return &scratchReader{toks: toks}
+	}
+	return &sliceReader{toks: toks}
+}
+
 // collect drains r (tolerating a token delivered together with io.EOF).
 func collect(r xml.TokenReader) ([]xml.Token, error) {
 	var out []xml.Token
@@ -352,7 +399,7 @@ func (v Val) streamError() stream.Error {
 		}{t.Lang, t.Value})
 	}
 	if len(v.Payload) > 0 {
-		e = e.ApplicationError(reader(payloadTokens(v.Payload)))
+		e = e.ApplicationError(readerForm(payloadTokens(v.Payload), v.PayForm))
 	}
 	return e
 }
